@@ -4,7 +4,7 @@ PROP = dict(
     level="exploration",
     stages=[dict(name="c17_arguments", src="harness/c17_arguments.cc", deps=["harness/c17/ref.hh"],
                  shards_quick=8, shards_thorough=16, timeout_quick=400, timeout_thorough=1500)],
-    rule=("exhaustive enumeration (all token lists of <= 5 tokens over the 12-token alphabet of DESIGN C17 through three constructors; the same "
+    rule=("exhaustive enumeration (all token lists of <= 5 tokens over the 12-token alphabet of DESIGN C17 through the vector, vector&& and argv constructors (quick tier: 5-token lists through one constructor each, rotating); the same "
           "lists without empty tokens joined into one command line with generated quoting; every integer of [-4000,4000] (quick) / "
           "[-70000,70000] (thorough) in decimal, 0x-hex and 0-octal against the 8/16/32-bit getters and all four IntFormats; boundary "
           "numerals 2^k+-2, 2^64-2^k+-2 and beyond 2^64 with signs, blanks and trailing garbage against all eight integer types; all short "
